@@ -146,6 +146,8 @@ pub fn render(c: &Cell) -> Rendered {
             }
             "ret" => ret = Some(syntax(&c.tt)),
             "cond" => {}
+            "index" | "index_set" => lines.push(format!("fn callee(q: {}) -> usize;", syntax(&c.tt))),
+            "binop" | "castop" | "condcall" | "builtin" => lines.push(format!("fn callee(q: {}) -> i32;", syntax(&c.tt))),
             _ => lines.push(format!("fn callee(q: {});", syntax(&c.tt))),
         }
     }
@@ -209,6 +211,12 @@ pub fn render(c: &Cell) -> Rendered {
             "nested" => format!("\tsink_a(callee({}));", r),
             "ret" => format!("\treturn: {}", r),
             "cond" => format!("\tif {} == {} {{ fill = 1i32; }}", r, r),
+            "index" => format!("\tvar rr: i32 = ta[callee({})];", r),
+            "index_set" => format!("\tta[callee({})] = 1i32;", r),
+            "binop" => format!("\tvar rr: i32 = 1i32 + callee({});", r),
+            "castop" => format!("\tvar rr: i64 = callee({}) as i64;", r),
+            "condcall" => format!("\tif callee({}) == 1i32 {{ fill = 1i32; }}", r),
+            "builtin" => format!("\tprint!(callee({}));", r),
             _ => format!("\tcallee({});", r),
         },
     };
